@@ -805,13 +805,13 @@ def mc_uci(work, rep, tier, liveness):
     """TLC on Uci.tla: the intended design satisfies the properties for every interleaving of the
     bounded scripts; each deviation the code first had is rejected by the same model."""
     quick = tier == "quick"
-    base = {"MaxCmds": 3 if quick else 4, "NS": 2, "MaxDepth": 2, "IdGuard": "TRUE", "StopOnOk": "TRUE", "ShutdownWaits": "TRUE", "TimerInLoop": "TRUE"}
+    base = {"MaxCmds": 3 if quick else 4, "NS": 2, "MaxDepth": 2, "IdGuard": "TRUE", "StopOnOk": "TRUE", "ShutdownWaits": "TRUE", "TimerInLoop": "TRUE", "OutCap": 0}
     cfg = vlib.cfg_text(spec="Spec", constants=base, invariants=UCI_INV, view="View")
     r = vlib.tlc(work, "Uci", cfg, workers=vlib.NCPU, timeout=3300, heap="6g" if quick else "16g", name="Uci-safety", coverage=True)
     vlib.need_tlc_ok(r, "Uci safety")
     rep.add_tlc(r)
     info = {"safety": {"states": r.distinct, "constants": base, "wall_s": round(r.wall, 1)}}
-    info["safety"].update(all_actions_taken(r, "Uci.tla"))
+    info["safety"].update(all_actions_taken(r, "Uci.tla", allow=("GuiRead",)))  # no back-pressure in this run: nothing queues up
     if liveness:
         lb = dict(base, MaxCmds=2 if quick else 3)
         cfg = vlib.cfg_text(spec="FairSpec", constants=lb, properties=["Answered", "StopAnswered", "LoopReturns"], view="View")
@@ -819,6 +819,21 @@ def mc_uci(work, rep, tier, liveness):
         vlib.need_tlc_ok(r, "Uci liveness")
         rep.add_tlc(r)
         info["liveness"] = {"states": r.distinct, "constants": lb, "wall_s": round(r.wall, 1)}
+    # output back-pressure: a one-slot output channel and a GUI that reads when it pleases (safety), eventually
+    # (liveness): every send of the loop and of the forwarders can block
+    bp = dict(base, MaxCmds=2 if quick else 3, OutCap=1)
+    cfg = vlib.cfg_text(spec="Spec", constants=bp, invariants=UCI_INV, view="View")
+    r = vlib.tlc(work, "Uci", cfg, workers=vlib.NCPU, timeout=3300, heap="6g" if quick else "16g", name="Uci-backpressure", coverage=True)
+    vlib.need_tlc_ok(r, "Uci back-pressure safety")
+    rep.add_tlc(r)
+    info["backpressure_safety"] = dict({"states": r.distinct, "constants": bp, "wall_s": round(r.wall, 1)}, **all_actions_taken(r, "Uci.tla (OutCap=1)"))
+    if liveness and not quick:
+        lb = dict(bp, MaxCmds=2)
+        cfg = vlib.cfg_text(spec="FairSpec", constants=lb, properties=["Answered", "StopAnswered", "LoopReturns"], view="View")
+        r = vlib.tlc(work, "Uci", cfg, workers=vlib.NCPU, timeout=3300, heap="16g", name="Uci-backpressure-liveness")
+        vlib.need_tlc_ok(r, "Uci back-pressure liveness")
+        rep.add_tlc(r)
+        info["backpressure_liveness"] = {"states": r.distinct, "constants": lb, "wall_s": round(r.wall, 1)}
     # non-vacuity: the deviations must be rejected
     dev = [("IdGuard", "FALSE", ["NoStaleBest"], []), ("ShutdownWaits", "FALSE", ["NoPanic"], []),
            ("StopOnOk", "FALSE", [], ["StopAnswered"]), ("TimerInLoop", "FALSE", [], ["StopAnswered"])]
